@@ -14,7 +14,9 @@ for every element in order), C14.A-dto (BddNodeDb, VarContainerDb, SimplifiedAdf
 into the accessor/field of the same name through to_string / parse only; ac handles are t.0.to_string() <-> Term(parse)),
 C14.P-noclobber (every file-creating call in the CLI is reached only through the false edge of exists() on the same
 path; the exists branch creates nothing), S.R-rec for the rebuilt counts/supports (attributed instances: fix_import,
-generate_var_dependencies, modelcount_memoization), C06.A-serde."""
+generate_var_dependencies, modelcount_memoization), C06.A-serde, C14.P-fix-once (the repair step appends to var_deps and is therefore
+applied only to freshly deserialised stores: every fix_import call site outside the repair chain has a serde_json::from_* receiver; the
+rebuild-from-parts constructors must not repeat it)."""
 NOT_DECIDED = "'Every semantics answer equals the original's' is behavioural; serde_json/bson round trips of primitive values are trusted."
 TECHNIQUE = "static analysis: must-pass-through / dominance rules on the CLI's CFG, attribute census, accessor-field agreement via expression reconstruction, loop-cut summaries"
 
@@ -184,6 +186,62 @@ def P_fix(ctx, bin_):
             if e[0] == "call" and e[3] and flow.find(e[3][0], lambda n_: n_[0] == "call" and n_[4] == bb):
                 ok = True
         ctx.ob(rule, "import@App::run.same-object", ok, where=run.where(t.get("loc")), expected="fix_import called on the deserialised Adf", found=ok)
+
+
+def P_fix_once(ctx, crates, lib):
+    rule = "C14.P-fix-once"
+    ctx.rule(rule, "the repair step is applied only to a freshly deserialised store: every call of Adf::fix_import / Bdd::fix_import outside the chain Adf::fix_import -> "
+                   "self.bdd.fix_import() -> generate_var_dependencies has a receiver that derives from a serde deserialisation, because generate_var_dependencies appends one "
+                   "entry per node to var_deps (not idempotent: a second application shifts the table and later restrictions read the entry of another node); vacuous in "
+                   "configurations without the variablelist feature or if the function resets the table first")
+    try:
+        gen = lib.one("obdd::Bdd::generate_var_dependencies")
+    except LookupError as e:
+        ctx.lost(rule, "generate_var_dependencies", str(e))
+        return
+    bodies = [gen] + lib.closures_of(gen, recursive=True)
+    pushes = resets = 0
+    for gb in bodies:
+        for bb, t, ci in gb.calls():
+            pth = ir.callee_path(ci) or ""
+            if flow.last(pth) in ("push", "insert", "extend") and "Vec" in pth:
+                pushes += 1
+            if flow.last(pth) in ("clear", "truncate") and "Vec" in pth:
+                resets += 1
+        for bb, i, s_ in gb.statements():
+            if s_["k"] == "assign" and [pe for pe in s_["pl"]["p"] if pe["k"] == "field" and pe.get("name") == "var_deps"] and s_["pl"]["p"][-1].get("name") == "var_deps":
+                resets += 1
+    if pushes == 0:
+        ctx.ob(rule, "appends", True, where=gen.where(), expected="-", found="no var_deps bookkeeping in this configuration", nontrivial=False)
+        return
+    if resets:
+        ctx.ob(rule, "appends", True, where=gen.where(), expected="-", found="generate_var_dependencies resets the table first: idempotent", nontrivial=False)
+        return
+    n = 0
+    for cname, crate in crates.items():
+        for b in crate.all_bodies:
+            d = None
+            for bb, t, ci in b.calls():
+                pth = flow.sg(ir.callee_path(ci) or "")
+                if not (pth.endswith("adf::Adf::fix_import") or pth.endswith("obdd::Bdd::fix_import") or pth.endswith("Bdd::generate_var_dependencies")):
+                    continue
+                n += 1
+                fn = crate.enclosing_fn(b)
+                owner = fn.qual if fn else b.qual
+                d = d or flow.Defs(b)
+                e = d.expr_call(t, bb)
+                recv = e[3][0] if e[0] == "call" and e[3] else None
+                # the chain itself
+                if cname == "lib" and owner == "Adf::fix_import" and pth.endswith("obdd::Bdd::fix_import") and recv is not None and flow.find(recv, lambda n_: n_[0] == "field" and n_[2] == "bdd"):
+                    ctx.ob(rule, "chain:Adf::fix_import", True, where=b.where(t.get("loc")), expected="self.bdd.fix_import()", found="ok", nontrivial=False)
+                    continue
+                if cname == "lib" and owner == "Bdd::fix_import" and pth.endswith("generate_var_dependencies"):
+                    ctx.ob(rule, "chain:Bdd::fix_import", True, where=b.where(t.get("loc")), expected="self.generate_var_dependencies()", found="ok", nontrivial=False)
+                    continue
+                des = recv is not None and bool(flow.find(recv, lambda n_: n_[0] == "call" and "serde_json" in n_[1] and flow.last(n_[2]).startswith("from_")))
+                ctx.ob(rule, "%s:%s" % (cname, owner), des, where=b.where(t.get("loc")), expected="receiver is a freshly deserialised Adf/Bdd (serde_json::from_*)",
+                       found=flow.show(recv)[:200] if recv is not None else None)
+    ctx.floor(rule, "repair-step call sites", n, 3 if "bin" in crates else 2)
 
 
 def P_noclobber(ctx, bin_):
@@ -369,3 +427,9 @@ def check(ctx):
     ctx.cfg = "server@default"
     server = ctx.load(facts.Config("server"))
     A_dto(ctx, server)
+    # repair step applied once, to deserialised stores only (all three crates; lib per configuration)
+    bin_ = ctx.load(facts.Config("bin"))
+    for cfg in lib_configs(ctx.tier):
+        ctx.cfg = cfg.name
+        lib = ctx.load(cfg)
+        P_fix_once(ctx, {"lib": lib, "bin": bin_, "server": server}, lib)
